@@ -505,6 +505,19 @@ TermDeltaBlocks(t, ev, k) ==
   IF k > Len(t.objs) THEN <<>>
   ELSE (IF t.objs[k].k = "D" THEN <<BlockString(t.objs[k], ev)>> ELSE <<>>) \o TermDeltaBlocks(t, ev, k + 1)
 
+(* per tensor named nid: its target indices in the order of Obj.idx *)
+RECURSIVE TermTargetIdx(_, _, _, _)
+TermTargetIdx(t, nid, tg, k) ==
+  IF k > Len(t.objs) THEN <<>>
+  ELSE (IF t.objs[k].nid = nid /\ t.objs[k].k \in {"A", "S", "M", "N"}
+        THEN << SelectSeq(ObjIdxSeq(t.objs[k]), LAMBDA i : i \in tg) >> ELSE <<>>)
+       \o TermTargetIdx(t, nid, tg, k + 1)
+RECURSIVE TermDeltaIdx(_, _)
+TermDeltaIdx(t, k) ==      \* index pairs of the deltas (as sets), with exponent multiplicity
+  IF k > Len(t.objs) THEN <<>>
+  ELSE (IF t.objs[k].k = "D" THEN [j \in 1..t.objs[k].e |-> SeqRange(ObjIdxSeq(t.objs[k]))] ELSE <<>>)
+       \o TermDeltaIdx(t, k + 1)
+
 DecompContract(ev, M) ==
   LET tg == SeqRange(ev.tgt)
       parts == ev.a.parts
@@ -531,6 +544,28 @@ DecompContract(ev, M) ==
                   LET bl == TermDeltaBlocks(parts[k].x[j], ev, 1) IN
                   IF bl = <<>> THEN parts[k].key = << <<"n", "o", "n", "e">> >>
                   ELSE SeqBag(bl) = SeqBag(parts[k].key)
+          \* key entries as index ids (parts[k].kids): one set per delta
+          [] ev.a.sorter = "by_delta_indices" ->
+               \A j \in 1..Len(parts[k].x) :
+                  LET ds == TermDeltaIdx(parts[k].x[j], 1) IN
+                  IF ds = <<>> THEN parts[k].kids = << <<>> >>
+                  ELSE SeqBag(ds) = SeqBag([q \in 1..Len(parts[k].kids) |-> SeqRange(parts[k].kids[q])])
+          \* spaces of the target indices on every tensor of the name
+          [] ev.a.sorter = "by_tensor_target_block" ->
+               \A j \in 1..Len(parts[k].x) :
+                  LET ti == TermTargetIdx(parts[k].x[j], ev.a.nid, tg, 1)
+                      bl == [q \in 1..Len(ti) |->
+                               IF ti[q] = <<>> THEN <<"n", "o", "n", "e">>
+                               ELSE [z \in 1..Len(ti[q]) |-> ev.idx[ti[q][z]].s]]
+                  IN IF ti = <<>> THEN Len(parts[k].key) = 1 /\ Len(parts[k].key[1]) > 3
+                                       /\ SubSeq(parts[k].key[1], 1, 3) = <<"n", "o", "_">>
+                     ELSE SeqBag(bl) = SeqBag(parts[k].key)
+          \* names (as index ids) of the target indices on every tensor of the name
+          [] ev.a.sorter = "by_tensor_target_indices" ->
+               \A j \in 1..Len(parts[k].x) :
+                  LET ti == TermTargetIdx(parts[k].x[j], ev.a.nid, tg, 1)
+                  IN IF ti = <<>> THEN parts[k].kids = << <<-1>> >>
+                     ELSE SeqBag(ti) = SeqBag(parts[k].kids)
           [] OTHER -> TRUE
   IN IF ~ordok THEN << <<"ord", "loop order">> >>
      ELSE (IF bad = {} THEN <<>>
